@@ -1698,6 +1698,20 @@ func (c *Client) WrapRoundTrip(wrappers ...RoundTripWrapper) *Client {
 	return c
 }
 
+// httpGetBody is what roundTrip advertises as http.Request.GetBody. net/http and the
+// transports call it to send the request a second time without telling anybody (307/308
+// redirect, HTTP/2 GOAWAY or REFUSED_STREAM, a keep-alive connection closed under an
+// idempotent request), so it must hand out a fresh reader over the complete body every
+// time. A caller's io.Reader and the pipe of a streamed multipart body can be read only
+// once: their GetBody returns the same, already drained reader, and must not be passed
+// on - without GetBody the request is not sent again once its body has been touched.
+func (r *Request) httpGetBody() func() (io.ReadCloser, error) {
+	if r.GetBody == nil || r.unReplayableBody != nil || (r.isMultiPart && r.forceChunkedEncoding) {
+		return nil
+	}
+	return r.GetBody
+}
+
 // RoundTrip implements RoundTripper
 func (c *Client) roundTrip(r *Request) (resp *Response, err error) {
 	resp = &Response{Request: r}
@@ -1748,7 +1762,7 @@ func (c *Client) roundTrip(r *Request) (resp *Response, err error) {
 		ProtoMinor:    1,
 		ContentLength: contentLength,
 		Body:          reqBody,
-		GetBody:       r.GetBody,
+		GetBody:       r.httpGetBody(),
 		Close:         r.close,
 	}
 	for _, cookie := range r.Cookies {
